@@ -5,6 +5,6 @@ From Inferno Require Import Base.Num Base.NumR Gen.Bounding C18.DelayAdj C18.Del
 Import ListNotations.
 Open Scope R_scope.
 Theorem targets_used_explicit : forall (v : T RN) (dflts : list (option (T RN))),
-  targets_used RN (Some v) dflts = targets_doc RN (Some v) dflts.
+  targets_used RN (Some v) dflts = map (fun _ : option (T RN) => Some v) dflts.
 Proof. exact (@Inferno.C09.HomeoProofs.targets_used_explicit). Qed.
 Print Assumptions targets_used_explicit.
